@@ -2,6 +2,7 @@ import FrappyProofs.Lemmas.Match
 import FrappyProofs.Lemmas.MatchAcc
 import FrappyProofs.Lemmas.Timed
 import FrappyProofs.Lemmas.Shutdown
+import FrappyProofs.Lemmas.Conn
 import FrappyModel.Generated.C11
 /-
 C11 — property theorems (nothing but property theorems and their non-vacuity examples).
@@ -317,6 +318,38 @@ example : (Frappy.Client.Shutdown.run {} [.rx false, .drop, .rx true, .rx false,
       .rx false, .user .d2, .user .d3, .user .d4]).map
     (fun s => allDone (runGreedy 300 s) && !allDone s) = some true := by
   decide +kernel
+
+end
+
+/-! ## the connection object -/
+
+section
+open Frappy.Client.Conn
+
+/-- What the client relies on holds for the model of `AsynTcp`, for every order of calls by the client's threads and
+every behaviour of the peer (lines, orderly close, reset — at any point): `shutdown()` and `disconnect()` never raise;
+`readline()` raises nothing but `ConnectionClosed`, that only on an ended connection, returns only the next unread line
+the peer sent, and on a dead connection does raise `ConnectionClosed`; `send()` after `shutdown()` fails.
+(The tie of this model to the code is the replay of real `AsynTcp` objects on loopback sockets, and of the scripted
+`FakeConn` the scheduler runs use, on `Conn.run`.) -/
+theorem conn_contract (evs : List Ev) (s : St) (h : Frappy.Client.Conn.run {} evs 0 = .ok s) : ConnContract evs :=
+  contract_of_run evs {} s {} 0 rel_init h
+
+/-- non-vacuity: the peer sends a line and resets the connection; the line is still read, then `ConnectionClosed`;
+`shutdown()` on the dead socket returns, sending fails, `disconnect()` and a second `shutdown()` return -/
+example : (match Frappy.Client.Conn.run {} [.peerSend, .peerRst, .call .readline (.line 0), .call .readline .closed,
+      .call .shutdown .ok, .call .send .connErr, .call .disconnect .ok, .call .shutdown .ok] 0 with
+    | .ok s => s.gone && s.eof && s.read == 1
+    | .error _ => false) = true := by
+  decide
+
+/-- the monitor is sensitive to what it is there for: a `shutdown()` that raises on a reset connection is not a trace
+of the model and breaks the contract at that call -/
+example : (match Frappy.Client.Conn.run {} [.peerRst, .call .readline .closed, .call .shutdown (.otherErr "OSError")] 0 with
+      | .error i => i == 2
+      | .ok _ => false) = true
+    ∧ connFirstBad {} [.peerRst, .call .readline .closed, .call .shutdown (.otherErr "OSError")] 0 = some 2 := by
+  decide
 
 end
 
